@@ -286,8 +286,18 @@ type World struct {
 	GossipHold  func(idx int) bool
 	gossipIndex int
 
-	lastClock int64
-	oldClock  func() int64
+	clockMu     sync.Mutex
+	clockOffset int64
+	lastClockBy map[int64]int64
+	oldClock    func() int64
+}
+
+// SetClockOffset sets the offset (ns) added to the CRDT clock from now on: events are run to
+// quiescence one at a time, so the harness sets the offset of the node an event is addressed to.
+func (w *World) SetClockOffset(d time.Duration) {
+	w.clockMu.Lock()
+	w.clockOffset = int64(d)
+	w.clockMu.Unlock()
 }
 
 type GossipMsg struct {
@@ -322,24 +332,23 @@ var AuthOverride wasp.AuthenticationHandler
 func NewWorld(t *testing.T, n int, opts ...NodeOpts) *World {
 	dir := filepath.Join(scratchBase(), fmt.Sprintf("world-%d-%d", os.Getpid(), worldCounter.Add(1)))
 	os.MkdirAll(dir, 0o755)
-	w := &World{T: t, Dir: dir, SessionOf: map[string]string{}, unreachable: map[[2]uint64]bool{}, GossipAuto: true}
+	w := &World{T: t, Dir: dir, SessionOf: map[string]string{}, unreachable: map[[2]uint64]bool{}, GossipAuto: true, lastClockBy: map[int64]int64{}}
 	w.Auth = &harnessAuth{w: w}
 	if AuthOverride != nil {
 		w.Auth = AuthOverride
 	}
 	w.oldClock = distributed.VerifSetClock(func() int64 {
-		// strictly increasing; follows virtual time
-		now := time.Now().UnixNano()
-		for {
-			last := atomic.LoadInt64(&w.lastClock)
-			v := now
-			if v <= last {
-				v = last + 1
-			}
-			if atomic.CompareAndSwapInt64(&w.lastClock, last, v) {
-				return v
-			}
+		// follows virtual time plus the clock offset of the node on whose behalf the current event runs;
+		// strictly increasing per offset (two changes in one virtual instant must not tie)
+		w.clockMu.Lock()
+		defer w.clockMu.Unlock()
+		off := w.clockOffset
+		v := time.Now().UnixNano() + off
+		if last, ok := w.lastClockBy[off]; ok && v <= last {
+			v = last + 1
 		}
+		w.lastClockBy[off] = v
+		return v
 	})
 	for i := 0; i < n; i++ {
 		o := NodeOpts{PrefillState: -1}
@@ -674,4 +683,18 @@ func (w *World) pendingFrom(idx int) uint64 {
 		}
 	}
 	return 0
+}
+
+
+// decodeSessions lists the session entries of a gossip payload as "id" -> live (added and not removed).
+func decodeSessions(b []byte) map[string]bool {
+	ev := &api.StateBroadcastEvent{}
+	out := map[string]bool{}
+	if err := proto.Unmarshal(b, ev); err != nil {
+		return out
+	}
+	for _, s := range ev.SessionMetadatas {
+		out[s.SessionID] = s.LastAdded > 0 && s.LastAdded > s.LastDeleted
+	}
+	return out
 }
